@@ -471,6 +471,70 @@ func runC20(w *World, r *Report) {
 			}
 			r.Check(okg, "C20.gates", "graph.compile gate: step limit rejected in DAG mode", gcompile.Pos(), "if r.dag && maxRunSteps > 0 -> error, on every path to success", det+": a Workflow (always DAG) compiled with WithMaxRunSteps is accepted and the limit silently ignored")
 		}
+		// validateDAG counts len(predecessors) and decrements once per edge / branch target: the predecessor tables must
+		// hold one entry per edge (a multiset) — each loop over the edge tables appends unconditionally
+		{
+			nUpd, bad := 0, ""
+			var mustUpdate func(f *ssa.Function, isTarget func(*ssa.MapUpdate) bool) bool
+			mustUpdate = func(f *ssa.Function, isTarget func(*ssa.MapUpdate) bool) bool {
+				skip, _ := pathQuery{fn: f, from: f.Blocks[0].Instrs[0], goal: isReturn, avoid: func(in ssa.Instruction) bool {
+					mu, ok := in.(*ssa.MapUpdate)
+					return ok && isTarget(mu)
+				}}.exists()
+				return !skip
+			}
+			for _, f := range withAnons(gcompile) {
+				instrs(f, func(in ssa.Instruction) {
+					mu, ok := in.(*ssa.MapUpdate)
+					if !ok {
+						return
+					}
+					mt, ok := mu.Map.Type().Underlying().(*types.Map)
+					if !ok {
+						return
+					}
+					if sl, ok := mt.Elem().Underlying().(*types.Slice); !ok || !types.Identical(sl.Elem(), types.Typ[types.String]) {
+						return
+					}
+					// the value is an append / a fresh one-element slice: a predecessor-table style update
+					if f == gcompile {
+						if _, isMk := mu.Map.(*ssa.MakeMap); !isMk {
+							return
+						}
+						nUpd++
+						return
+					}
+					// inside a literal of compile: the literal must update on every path (no dedup / early return)
+					nUpd++
+					if !mustUpdate(f, func(m2 *ssa.MapUpdate) bool { return m2.Map == mu.Map }) {
+						bad = w.fname(f) + " can return without recording the predecessor"
+					}
+				})
+			}
+			// in compile itself: a dominating equality scan over the existing entries (dedup) guards no append
+			instrs(gcompile, func(in ssa.Instruction) {
+				mu, ok := in.(*ssa.MapUpdate)
+				if !ok {
+					return
+				}
+				if _, isMk := mu.Map.(*ssa.MakeMap); !isMk {
+					return
+				}
+				for _, g := range guardsOf(mu.Block()) {
+					if op, x, y, ok := asCmp(g.cond); ok && (op == token.EQL || op == token.NEQ) {
+						if _, isStr := x.Type().Underlying().(*types.Basic); isStr && types.Identical(x.Type(), types.Typ[types.String]) && types.Identical(y.Type(), types.Typ[types.String]) {
+							if _, c1 := x.(*ssa.Const); !c1 {
+								if _, c2 := y.(*ssa.Const); !c2 {
+									bad = "a predecessor-table append in compile is guarded by a comparison of two keys (de-duplication)"
+								}
+							}
+						}
+					}
+				}
+			})
+			r.Check(nUpd >= 4 && bad == "", "C20.gates", "graph.compile: predecessor tables hold one entry per edge", gcompile.Pos(), fmt.Sprintf("%d unconditional table updates", nUpd),
+				fmt.Sprintf("the predecessor tables are not a per-edge multiset any more (%s; %d updates): validateDAG still decrements once per edge and per branch target, so a node reached both by an edge and as a branch target is decremented below its count — a cycle behind it is accepted in all-predecessor mode (or an acyclic graph rejected)", bad, nUpd))
+		}
 		// DAG channel builder chosen => r.dag set: both controlled by the same runType value
 		r.Check(len(dagStores) == 1, "C20.gates", "graph.compile: single site sets runner.dag", gcompile.Pos(), "one store", "runner.dag set at several places")
 	}
@@ -696,6 +760,27 @@ func runC20(w *World, r *Report) {
 		}
 		r.Check(!hit && len(extra) == 0, "C20.presence", construct, cmpIf.Cond.Pos(), "every existing entry is compared with the end node before the list is extended; a match returns an error",
 			fmt.Sprintf("a duplicate %s entry can be added: match arm reaches the extension=%v, scan skipped under %v — the same edge is recorded twice and its mappings are chained (every run then fails) instead of the second declaration being rejected", field, hit, extra))
+	}
+	// entry / exit bookkeeping: only a CONTROL edge from START (to END) makes a node an entry (exit) node
+	for _, field := range []string{"startNodes", "endNodes"} {
+		n := 0
+		for _, in := range writesTo(addEdge, field) {
+			n++
+			np := keyParam(addEdge, "noControl")
+			okc := hasGuard(in.Block(), func(g guard) bool {
+				if g.cond == ssa.Value(np) && !g.pol {
+					return true
+				}
+				if u, ok := g.cond.(*ssa.UnOp); ok && u.Op == token.NOT && u.X == ssa.Value(np) && g.pol {
+					return true
+				}
+				return false
+			})
+			r.Check(okc, "C20.presence", "addEdgeWithMappings: "+field+" extended only for control edges", in.Pos(), "under !noControl", "a data-only edge (WithNoDirectDependency) from START / to END counts as an entry / exit edge: a workflow without any control entry (exit) compiles instead of failing with 'start node not set' / 'end node not set'")
+		}
+		if n == 0 {
+			r.Fail("C20.presence", "addEdgeWithMappings: "+field+" extended only for control edges", addEdge.Pos(), "no write of graph."+field+" in addEdgeWithMappings")
+		}
 	}
 	brW := writesTo(addBranch, "branches")
 	unknownEndpoint(addBranch, keyParam(addBranch, "startNode"), cSTART, brW, "unknown branch start node")
